@@ -23,27 +23,29 @@ const (
 	skBytesSkip  = "BytesSkipDecoder"
 	skReaderSkip = "ReaderSkipDecoder"
 	skTplCustom  = "SkipDecoderTpl/custom-buffer-reusing-iface"
+	skBinStack   = "Binary.Skip/input-in-a-local-array-on-the-goroutine-stack"
 )
 
-var memSkippers = []string{skBinary, skBufBytes, skDecBytesR, skBytesSkip, skTplCustom}
+var memSkippers = []string{skBinary, skBufBytes, skDecBytesR, skBytesSkip, skTplCustom, skBinStack}
 var streamSkippers = []string{skBufStream, skDecStream, skReaderSkip}
-var allSkippers = []string{skBinary, skBufBytes, skDecBytesR, skBytesSkip, skTplCustom, skBufStream, skDecStream, skReaderSkip}
+var allSkippers = []string{skBinary, skBufBytes, skDecBytesR, skBytesSkip, skTplCustom, skBinStack, skBufStream, skDecStream, skReaderSkip}
 
 func isStreamSkipper(s string) bool { return s == skBufStream || s == skDecStream || s == skReaderSkip }
 
 type skipOut struct {
-	LateReads int // Read calls issued on the source after the whole value had been delivered
-	OK        bool
-	N         int    // reported / consumed length
-	Bytes     []byte // decoder result (nil for the non-decoder skippers)
-	HasBytes  bool
-	Err       error
-	Panic     *mc.PanicInfo
-	AllocCap  bool
-	ReadLen   int  // bufiox ReadLen after the call (-1 if n/a)
-	SrcOut    int  // bytes the io.Reader handed out (-1 if n/a)
-	NextByte  int  // first byte readable after the call (-1 = none / not probed)
-	NextOK    bool // NextByte probed
+	StackMismatch bool // the stack-held input gave another result than the heap-held one
+	LateReads     int  // Read calls issued on the source after the whole value had been delivered
+	OK            bool
+	N             int    // reported / consumed length
+	Bytes         []byte // decoder result (nil for the non-decoder skippers)
+	HasBytes      bool
+	Err           error
+	Panic         *mc.PanicInfo
+	AllocCap      bool
+	ReadLen       int  // bufiox ReadLen after the call (-1 if n/a)
+	SrcOut        int  // bytes the io.Reader handed out (-1 if n/a)
+	NextByte      int  // first byte readable after the call (-1 = none / not probed)
+	NextOK        bool // NextByte probed
 }
 
 func setAllocCap(n int) {
@@ -85,6 +87,24 @@ run:
 					o.NextByte = int(input[n])
 				}
 			}
+		case skBinStack:
+			// the same call on a copy of the input held in a local array of a fresh goroutine, for three amounts of stack
+			// already in use; inputs that do not fit the array run on the heap copy
+			n, err, mismatch, ok := binarySkipOnStack(input, t)
+			if !ok {
+				n, err = thrift.Binary.Skip(input, thrift.TType(t))
+			}
+			o.N, o.Err, o.OK = n, err, err == nil
+			if mismatch != "" {
+				o.N, o.Err, o.OK = -1, errors.New(mismatch), false
+				o.StackMismatch = true
+			}
+			if o.OK && probeNext {
+				o.NextOK = true
+				if o.N >= 0 && o.N < len(input) {
+					o.NextByte = int(input[o.N])
+				}
+			}
 		case skBufBytes, skBufStream:
 			var r bufiox.Reader
 			if which == skBufBytes {
@@ -92,7 +112,7 @@ run:
 			} else {
 				er = NewEnvReader(input, env)
 				er.Need = skNeed
-				r = bufiox.NewDefaultReader(er)
+				r = bufiox.NewDefaultReader(er.Src())
 			}
 			br := thrift.NewBufferReader(r)
 			err := br.Skip(thrift.TType(t))
@@ -117,7 +137,7 @@ run:
 			} else {
 				er = NewEnvReader(input, env)
 				er.Need = skNeed
-				r = bufiox.NewDefaultReader(er)
+				r = bufiox.NewDefaultReader(er.Src())
 			}
 			d := thrift.NewSkipDecoder(r)
 			b, err := d.Next(thrift.TType(t))
@@ -168,7 +188,7 @@ run:
 		case skReaderSkip:
 			er = NewEnvReader(input, env)
 			er.Need = skNeed
-			d := thrift.NewReaderSkipDecoder(er)
+			d := thrift.NewReaderSkipDecoder(er.Src())
 			b, err := d.Next(thrift.TType(t))
 			o.LateReads = er.LateCalls
 			o.Err, o.OK = err, err == nil
